@@ -239,6 +239,9 @@ class Cfg:
         self.cycles = True
         self.py_safe = True
         self.rich_docs = True
+        self.tag_annotations = False
+        self.nested_label_lists = False
+        self.ann_prob = 60
         self.size = None
         self.__dict__.update(kw)
 
@@ -669,6 +672,17 @@ class Gen:
             targets = []
             if isinstance(d, Struct):
                 targets = d.fields
+            elif isinstance(d, Union) and getattr(self.cfg, 'tag_annotations', False):
+                targets = [g for g in d.tags]
+                for g in targets:
+                    if not hasattr(g, 'anns'):
+                        g.anns = []
+                    if t.chance(45):
+                        omit = [a for a in anns if a.kind == 'Omitted']
+                        if omit:
+                            a = t.choice(omit)
+                            g.anns.append((a.ns, a.name))
+                continue
             for f in targets:
                 if not t.chance(30):
                     continue
@@ -916,7 +930,7 @@ class Gen:
             for prev in names[:i]:
                 if t.chance(60):
                     ns.imports.append(prev)
-            if cfg.annotations and t.chance(60):
+            if cfg.annotations and t.chance(cfg.ann_prob):
                 self.gen_annotations(nm)
             ntypes = t.rng(1, cfg.max_types)
             for _ in range(ntypes):
@@ -1130,7 +1144,7 @@ def render_tag(g, cur_ns, indent=4, style=None):
     line = '%s%s' % (' ' * indent, g.name)
     if g.type is not None:
         line += ' ' + render_type(g.type, cur_ns, style)
-    return [line] + render_doc(g.doc, indent + 4)
+    return [line] + render_ann_refs(getattr(g, 'anns', []), cur_ns, indent + 4) + render_doc(g.doc, indent + 4)
 
 
 def render_examples(exs, indent=4):
@@ -1242,3 +1256,72 @@ def render_reference(model, style=None):
         if patches:
             files.append(('%s_patches.stone' % n.name, assemble(['namespace %s' % n.name], patches)))
     return files
+
+
+def rename_namespaces(model, mapping):
+    """A deep copy of the model with namespaces renamed (all references follow)."""
+    m = model.clone()
+
+    def rn(ns):
+        return mapping.get(ns, ns)
+
+    def fix_t(t):
+        if t is None:
+            return
+        if t.kind == 'ref':
+            t.ns = rn(t.ns)
+        elif t.kind == 'list':
+            fix_t(t.item)
+        elif t.kind == 'map':
+            fix_t(t.key)
+            fix_t(t.val)
+        elif t.kind == 'nullable':
+            fix_t(t.inner)
+
+    def fix_field(f):
+        fix_t(f.type)
+        f.anns = [(rn(a), b) for a, b in getattr(f, 'anns', [])]
+
+    new = {}
+    for n in m.all_namespaces():
+        n.name = rn(n.name)
+        n.imports = [rn(i) for i in n.imports]
+        for d in n.defs:
+            if hasattr(d, 'ns'):
+                d.ns = rn(d.ns)
+            if isinstance(d, Alias):
+                fix_t(d.type)
+                d.anns = [(rn(a), b) for a, b in d.anns]
+            elif isinstance(d, Struct):
+                if d.parent:
+                    d.parent = (rn(d.parent[0]), d.parent[1])
+                if d.subtypes:
+                    d.subtypes['tags'] = [(tg, (rn(r[0]), r[1])) for tg, r in d.subtypes['tags']]
+                for f in d.fields:
+                    fix_field(f)
+            elif isinstance(d, Union):
+                if d.parent:
+                    d.parent = (rn(d.parent[0]), d.parent[1])
+                for g in d.tags:
+                    fix_t(g.type)
+                    if hasattr(g, 'anns'):
+                        g.anns = [(rn(a), b) for a, b in g.anns]
+            elif isinstance(d, Route):
+                fix_t(d.arg)
+                fix_t(d.result)
+                fix_t(d.error)
+            elif isinstance(d, AnnDef):
+                if isinstance(d.kind, tuple):
+                    d.kind = ('custom', rn(d.kind[1]), d.kind[2])
+            elif isinstance(d, AnnType):
+                for f in d.params:
+                    fix_field(f)
+            elif isinstance(d, Patch):
+                for f in d.fields:
+                    fix_field(f)
+                for g in d.tags:
+                    fix_t(g.type)
+        if n is not m.cfg:
+            new[n.name] = n
+    m.namespaces = new
+    return m
